@@ -570,8 +570,14 @@ func TestCheck(t *testing.T) {
 		rig.ReadJSON(p, &w)
 		cases = append(cases, w.Witness.Case)
 	} else {
-		cases = fixedCases()
+		cases = append(fixedCases(), chainCases()...)
+		c.Extra("fixed_chain_cases", len(cases))
 		for i := range cases {
+			if i%97 == 0 {
+				cases[i].E2E = []string{"existing", "create"}[(i/97)%2]
+			}
+		}
+		for i := range cases[:0] {
 			if i%4 == 0 {
 				cases[i].E2E = []string{"existing", "create"}[(i/4)%2]
 			}
